@@ -163,6 +163,7 @@ type JGenOpts struct {
 	BoundaryDates      bool // the days are drawn from the days around a turn of the year and the end of February (leap years included)
 	LongPrices         bool // some declared prices carry 9-12 decimals (more than the 8 the price arithmetic keeps)
 	CaseVariants       bool // commodities that differ only in letter case (distinct commodities; comparators must not tie on them)
+	BookOut            bool // sometimes empty an A/L account (all its positions or one of them) by transfer bookings, so that accounts which HELD positions get closed (the same day or a later one) and re-opened (seeded change C16-f forgot positions at the start of the closing day); draws nothing when off
 }
 
 var typeNames = []string{"Assets", "Liabilities", "Equity", "Income", "Expenses"}
@@ -428,6 +429,64 @@ func GenJournal(r *RNG, o JGenOpts) (*Journal, []string) {
 			}
 			j.Dirs = append(j.Dirs, t)
 		}
+		// book-outs: an A/L account hands its positions (all of them, one of them, or half of one) to another open account
+		emptied := map[string]bool{}
+		if o.BookOut && len(openNow) >= 2 {
+			for _, a := range openNow {
+				if !isAL(a) || !r.Chance(1, 3) {
+					continue
+				}
+				var held []string
+				for _, c := range coms {
+					if q := st.qty[[2]string{a, c}]; !q.IsZero() {
+						held = append(held, c)
+					}
+				}
+				if len(held) == 0 {
+					continue
+				}
+				all := true
+				if len(held) > 1 && r.Chance(1, 4) {
+					held, all = []string{Pick(r, held)}, false
+				}
+				to := Pick(r, openNow)
+				if to == a {
+					to = openNow[(indexOf(openNow, a)+1)%len(openNow)]
+				}
+				var bks []JBook
+				for _, c := range held {
+					q := st.qty[[2]string{a, c}]
+					parts := []decimal.Decimal{q}
+					switch r.Intn(8) {
+					case 0: // only half of the position leaves the account
+						parts, all = []decimal.Decimal{q.Mul(decimal.New(5, -1))}, false
+					case 1: // the position leaves in two bookings
+						h := q.Mul(decimal.New(5, -1))
+						parts = []decimal.Decimal{h, q.Sub(h)}
+					}
+					for _, x := range parts {
+						if r.Bool() {
+							bks = append(bks, JBook{a, to, x.String(), c})
+						} else {
+							bks = append(bks, JBook{to, a, x.Neg().String(), c})
+						}
+						st.qty[[2]string{a, c}] = st.qty[[2]string{a, c}].Sub(x)
+						if isAL(to) {
+							st.qty[[2]string{to, c}] = st.qty[[2]string{to, c}].Add(x)
+						}
+					}
+				}
+				if len(bks) > 1 && r.Bool() {
+					for _, b := range bks {
+						j.Dirs = append(j.Dirs, JDir{Kind: 't', Date: day, Desc: Pick(r, descs), Bookings: []JBook{b}})
+					}
+				} else {
+					j.Dirs = append(j.Dirs, JDir{Kind: 't', Date: day, Desc: Pick(r, descs), Bookings: bks})
+				}
+				emptied[a] = all
+				tag("book-out")
+			}
+		}
 		// assertions with the true running balance
 		if r.Chance(1, 2) {
 			var bals []JBal
@@ -458,7 +517,11 @@ func GenJournal(r *RNG, o JGenOpts) (*Journal, []string) {
 		}
 		// closes: accounts all of whose positions are zero
 		for _, a := range openNow {
-			if !r.Chance(1, 5) {
+			if emptied[a] { // (only with BookOut) an account emptied today is closed today two times out of three, else on a later day
+				if !r.Chance(2, 3) {
+					continue
+				}
+			} else if !r.Chance(1, 5) {
 				continue
 			}
 			zero := true
@@ -470,8 +533,11 @@ func GenJournal(r *RNG, o JGenOpts) (*Journal, []string) {
 			if o.Accruals && (a == accrualAcc || !isAL(a)) {
 				continue // accrual legs are booked on other days: keep these accounts open
 			}
-			if zero && a != accounts[0] && a != accounts[1] {
+			if zero && (a != accounts[0] || o.BookOut) && a != accounts[1] {
 				j.Dirs = append(j.Dirs, JDir{Kind: 'c', Date: day, Account: a})
+				if emptied[a] {
+					tag("close-on-emptying-day")
+				}
 				st.open[a] = false
 				for k := range st.qty {
 					if k[0] == a {
